@@ -241,6 +241,13 @@ def layout(S, cfg):
         S.eq(f'flow.proportional_to_area[{i}]', c._sc_mfr[i] * c.gap_params['total area'], flow * area[i])
         S.eq(f'de.definition[{i}]', c.gap_params['de'][i] * c.gap_params['wp'][i], 4 * area[i])
     S.eq('flow.sums_to_gap_flow', sum(c._sc_mfr), flow)
+    # what the flowing-gap energy equation divides by is the flow of the cell itself, however small (C02's gap contract
+    # takes this relation as the callee's contract)
+    if getattr(c, 'model', None) == 'flow' and hasattr(c, '_inv_sc_mfr'):
+        for i in range(c.n_sc):
+            S.eq(f'flow.inverse_is_reciprocal_of_cell_flow[{i}]', c._inv_sc_mfr[i] * c._sc_mfr[i], 1)
+    elif getattr(c, 'model', None) == 'flow':
+        S.holds('flow.inverse_is_reciprocal_of_cell_flow', False)
     # distances / conduction constants symmetric; convection constants = assembly-side widths
     L, R = c.gap_params['L'], c._Rcond
     for i in range(c.n_sc):
